@@ -9,7 +9,6 @@ use serde_json::{json, Value};
 use crate::c14::*;
 use crate::driver::*;
 use crate::pools::langs;
-use crate::rng::{run_seed, Rng};
 
 /// Process-wide capture of fd 1 and fd 2 into an anonymous (unlinked) file.
 pub struct Capture {
@@ -90,6 +89,72 @@ fn child_reference(calls: &[Call], tag: &str) -> Result<Vec<String>, String> {
     r
 }
 
+/// `t2n-sim reference-call <call json>`: one call, one process. Prints the JSON-encoded
+/// result on stdout and nothing else.
+pub fn reference_call_main(call_json: &str) -> i32 {
+    let call: Call = match serde_json::from_str(call_json) {
+        Ok(c) => c,
+        Err(_) => return 2,
+    };
+    let fresh = crate::pools::Langs::new();
+    let r = exec_call(&fresh, &call, false);
+    println!("{}", serde_json::to_string(&r).unwrap());
+    0
+}
+
+/// The pristine reference table: every call in its own fresh process (16 at a time).
+/// Returns the results and, per call, any bytes the child wrote besides its one result line.
+fn pristine_table(calls: &[Call]) -> Result<(Vec<String>, Vec<Option<String>>), String> {
+    let exe = std::env::current_exe().map_err(|e| e.to_string())?;
+    let n = calls.len();
+    let next = std::sync::atomic::AtomicUsize::new(0);
+    let results: Vec<std::sync::Mutex<Option<Result<(String, Option<String>), String>>>> = (0..n).map(|_| std::sync::Mutex::new(None)).collect();
+    std::thread::scope(|sc| {
+        for _ in 0..16 {
+            sc.spawn(|| loop {
+                let i = next.fetch_add(1, std::sync::atomic::Ordering::Relaxed);
+                if i >= n {
+                    break;
+                }
+                let js = serde_json::to_string(&calls[i]).unwrap();
+                let r = match std::process::Command::new(&exe).arg("reference-call").arg(&js).output() {
+                    Ok(o) if o.status.code() == Some(0) => {
+                        let so = String::from_utf8_lossy(&o.stdout).to_string();
+                        let mut lines = so.lines();
+                        match lines.next().and_then(|l| serde_json::from_str::<String>(l).ok()) {
+                            Some(res) => {
+                                let stray_out: String = lines.collect::<Vec<_>>().join("\n");
+                                let stray = format!("{}{}", stray_out, String::from_utf8_lossy(&o.stderr));
+                                Ok((res, if stray.is_empty() { None } else { Some(stray) }))
+                            }
+                            None => {
+                                // the call itself printed before/without the result line
+                                Ok(("?".to_string(), Some(format!("{}{}", so, String::from_utf8_lossy(&o.stderr)))))
+                            }
+                        }
+                    }
+                    Ok(o) => Err(format!("reference-call child exit {:?}", o.status.code())),
+                    Err(e) => Err(e.to_string()),
+                };
+                *results[i].lock().unwrap() = Some(r);
+            });
+        }
+    });
+    let mut table = Vec::with_capacity(n);
+    let mut stray = Vec::with_capacity(n);
+    for m in results {
+        match m.into_inner().unwrap() {
+            Some(Ok((r, s))) => {
+                table.push(r);
+                stray.push(s);
+            }
+            Some(Err(e)) => return Err(e),
+            None => return Err("missing reference result".into()),
+        }
+    }
+    Ok((table, stray))
+}
+
 fn single_call_case(call: &Call, expected: &str) -> Case {
     Case { calls: vec![call.clone()], expected: vec![expected.to_string()], threads: vec![vec![0]], policy: 0, sched_seed: 0, trace: None }
 }
@@ -160,53 +225,112 @@ pub fn run_c14(cfg: &BatchCfg, corpus_size: usize, pristine_sample: usize) -> i3
     let mut violations = 0u64;
     let fail = |lines: &Vec<String>, code: i32| -> i32 { flush_and_code(lines, code) };
 
-    // corpus and reference table (pristine child, fresh interpreters per call, reverse order)
+    // corpus and reference table: every call in its own pristine process
     let calls = gen_corpus(cfg.seed, corpus_size);
-    let expected = match child_reference(&calls, "ref") {
-        Ok(e) => e,
-        Err(e) if e.starts_with("SILENCE:") => {
-            // attribute below by the silence scan; continue with an in-process table
-            lines.push(format!("note: reference child wrote to its standard streams: {}", &e[8..]));
-            reference_results(&calls)
-        }
+    let (expected, stray) = match pristine_table(&calls) {
+        Ok(x) => x,
         Err(e) => {
             lines.push(format!("HARNESS-ERROR property=C14 {e}"));
             return fail(&lines, 2);
         }
     };
-    if expected.len() != calls.len() {
-        lines.push("HARNESS-ERROR property=C14 reference table has the wrong length".into());
-        return fail(&lines, 2);
+    if let Some(i) = stray.iter().position(|s| s.is_some()) {
+        let detail = format!(
+            "call {} alone in a pristine process wrote to the standard streams: {:?}",
+            serde_json::to_string(&calls[i]).unwrap_or_default(),
+            stray[i].as_deref().unwrap_or("").chars().take(200).collect::<String>()
+        );
+        let mut violations = 0;
+        if report_violation(&mut lines, cfg.seed, 900_000 + i as u64, &single_call_case(&calls[i], &expected[i]), "E1-silence", &detail) {
+            violations = 1;
+        }
+        return fail(&lines, if violations > 0 { 1 } else { 2 });
+    }
+    // second history: all calls in ONE other process (fresh interpreters and a fresh thread per
+    // call, reverse order); it must agree with the pristine table
+    match child_reference(&calls, "ref") {
+        Ok(one_process) => {
+            if let Some(i) = (0..calls.len()).find(|&i| one_process[i] != expected[i]) {
+                // the history that produced it: calls i.. in reverse order; hand the forward pass a case
+                let detail = format!(
+                    "call {} gives {:?} alone in a pristine process but {:?} in a process that had executed the calls after it in the corpus (reverse order) before",
+                    serde_json::to_string(&calls[i]).unwrap_or_default(),
+                    expected[i],
+                    one_process[i]
+                );
+                let hi = calls.len() - 1;
+                let idx: Vec<usize> = (i..=hi).rev().collect();
+                let case = Case {
+                    calls: calls[i..=hi].to_vec(),
+                    expected: expected[i..=hi].to_vec(),
+                    threads: vec![idx.iter().map(|k| k - i).collect()],
+                    policy: 0,
+                    sched_seed: 0,
+                    trace: None,
+                };
+                let check = C14 { corpus: Corpus { calls: vec![], expected: vec![] } };
+                let v0 = Violation { oracle: "H1-history-independence".into(), detail: detail.clone() };
+                match minimise_isolated(&check, &case, "H1-history-independence", 400) {
+                    Some((c2, v2, n2)) => {
+                        let path = write_replay(&check, cfg.seed, 600_000 + i as u64, &c2, &v2, &format!("minimised with {n2} process-isolated re-executions from the reverse-order reference history"));
+                        lines.push(format!("violation detail: oracle={} {}", v2.oracle, v2.detail));
+                        lines.push(format!("VIOLATION property=C14 replay={}", path.display()));
+                    }
+                    None => {
+                        let p = replay_dir().join(format!("C14-{}-reverse-history-{i}.json", cfg.seed));
+                        let _ = std::fs::write(&p, serde_json::to_string_pretty(&json!({"property":"C14","oracle":v0.oracle,"detail":detail,"case":case})).unwrap());
+                        lines.push(format!("violation detail: oracle={} {}", v0.oracle, detail));
+                        lines.push(format!("VIOLATION property=C14 replay={}", p.display()));
+                    }
+                }
+                return fail(&lines, 1);
+            }
+        }
+        Err(e) if e.starts_with("SILENCE:") => {
+            lines.push(format!("note: the one-process reference child wrote to its standard streams: {}", &e[8..]));
+        }
+        Err(e) => {
+            lines.push(format!("HARNESS-ERROR property=C14 {e}"));
+            return fail(&lines, 2);
+        }
     }
 
     // ---- everything from here on runs with fd 1 / fd 2 captured
     let cap = Capture::start();
 
-    // (e) silence scan, one call at a time on the shared interpreters
+    // (e) silence scan, one call at a time on one set of long-lived interpreters, on a thread
+    // of its own (the main thread's thread-locals stay untouched)
     let mut silence_hit: Option<(usize, u64)> = None;
-    {
-        let ls = langs();
-        let mut last = cap.bytes();
-        for (i, c) in calls.iter().enumerate() {
-            let _ = exec_call(ls, c, false);
-            let now = cap.bytes();
-            if now > last {
-                silence_hit = Some((i, now - last));
-                break;
+    std::thread::scope(|sc| {
+        sc.spawn(|| {
+            let ls = langs();
+            let mut last = cap.bytes();
+            for (i, c) in calls.iter().enumerate() {
+                let _ = exec_call(ls, c, false);
+                let now = cap.bytes();
+                if now > last {
+                    silence_hit = Some((i, now - last));
+                    break;
+                }
+                last = now;
             }
-            last = now;
-        }
-    }
-    // (b') single-thread pass over the whole corpus on the shared interpreters, forward order
-    let mut direct_mismatch: Option<usize> = None;
+        });
+    });
+    // (b') the whole corpus as ONE forward history on one simulated thread and one set of
+    // interpreters, through the same executor as every other run (so it replays from its case)
+    let full_history = Case {
+        calls: calls.clone(),
+        expected: expected.clone(),
+        threads: vec![(0..calls.len()).collect()],
+        policy: 0,
+        sched_seed: 0,
+        trace: None,
+    };
+    let mut direct_mismatch: Option<Violation> = None;
     if silence_hit.is_none() {
-        let ls = langs();
-        for (i, c) in calls.iter().enumerate() {
-            if exec_call(ls, c, false) != expected[i] {
-                direct_mismatch = Some(i);
-                break;
-            }
-        }
+        let probe = C14 { corpus: Corpus { calls: vec![], expected: vec![] } };
+        let mut st = Stats::default();
+        direct_mismatch = probe.execute(&full_history, &mut st).violation;
     }
 
     let check = C14 { corpus: Corpus { calls: calls.clone(), expected: expected.clone() } };
@@ -225,36 +349,15 @@ pub fn run_c14(cfg: &BatchCfg, corpus_size: usize, pristine_sample: usize) -> i3
         } else {
             return fail(&lines, 2);
         }
-    } else if let Some(i) = direct_mismatch {
-        // shrink the forward history 0..=i to something small through the generic machinery
-        let case = Case {
-            calls: calls[..=i].to_vec(),
-            expected: expected[..=i].to_vec(),
-            threads: vec![(0..=i).collect()],
-            policy: 0,
-            sched_seed: 0,
-            trace: None,
-        };
-        let mut st = Stats::default();
-        let r = check.execute(&case, &mut st);
-        match r.violation {
-            Some(v0) => {
-                let (min_case, v, execs) = minimise(&check, &case, &v0.oracle);
-                let path = write_replay(&check, cfg.seed, 800_000 + i as u64, &min_case, &v, &format!("minimised with {execs} re-executions from the forward corpus pass up to call {i}"));
-                match confirm_in_child(&path, &v.oracle) {
-                    Ok(()) => {
-                        lines.push(format!("violation detail: oracle={} {}", v.oracle, v.detail));
-                        lines.push(format!("VIOLATION property=C14 replay={}", path.display()));
-                        violations += 1;
-                    }
-                    Err(e) => {
-                        lines.push(format!("HARNESS-ERROR property=C14 replay {} did not reproduce: {e}", path.display()));
-                        return fail(&lines, 2);
-                    }
-                }
+    } else if let Some(v0) = direct_mismatch {
+        match minimise_and_confirm(&check, cfg.seed, 800_000, &full_history, &v0) {
+            Ok((path, _c, v)) => {
+                lines.push(format!("violation detail: oracle={} {}", v.oracle, v.detail));
+                lines.push(format!("VIOLATION property=C14 replay={}", path.display()));
+                violations += 1;
             }
-            None => {
-                lines.push(format!("HARNESS-ERROR property=C14 corpus call {i} disagreed with the reference table in the forward pass but not when its history was re-executed"));
+            Err(e) => {
+                lines.push(format!("HARNESS-ERROR property=C14 forward-history mismatch did not reproduce in a fresh process: {e}"));
                 return fail(&lines, 2);
             }
         }
@@ -292,44 +395,8 @@ pub fn run_c14(cfg: &BatchCfg, corpus_size: usize, pristine_sample: usize) -> i3
         }
     }
 
-    // pristine sample: one process per call
-    let mut pristine_checked = 0;
-    if violations == 0 {
-        let mut rng = Rng::new(run_seed(cfg.seed, "C14-pristine", 0));
-        for k in 0..pristine_sample {
-            let i = rng.below(calls.len());
-            match child_reference(std::slice::from_ref(&calls[i]), &format!("one{k}")) {
-                Ok(r) if r.len() == 1 => {
-                    pristine_checked += 1;
-                    if r[0] != expected[i] {
-                        let detail = format!(
-                            "call {} gives {:?} alone in a pristine process but {:?} in the reference process that had executed other calls before",
-                            serde_json::to_string(&calls[i]).unwrap_or_default(),
-                            r[0],
-                            expected[i]
-                        );
-                        let p = replay_dir().join(format!("C14-{}-pristine-{i}.json", cfg.seed));
-                        let _ = std::fs::write(&p, serde_json::to_string_pretty(&json!({"property":"C14","oracle":"H3-pristine-process","detail":detail,"calls":calls,"index":i})).unwrap());
-                        lines.push(format!("violation detail: oracle=H3-pristine-process {detail}"));
-                        lines.push(format!("VIOLATION property=C14 replay={}", p.display()));
-                        violations += 1;
-                        break;
-                    }
-                }
-                Ok(_) => {}
-                Err(e) if e.starts_with("SILENCE:") => {
-                    if report_violation(&mut lines, cfg.seed, 700_000 + i as u64, &single_call_case(&calls[i], &expected[i]), "E1-silence", &format!("pristine child wrote: {}", &e[8..])) {
-                        violations += 1;
-                    }
-                    break;
-                }
-                Err(e) => {
-                    lines.push(format!("HARNESS-ERROR property=C14 pristine child: {e}"));
-                    return fail(&lines, 2);
-                }
-            }
-        }
-    }
+    let pristine_checked = calls.len();
+    let _ = pristine_sample;
     extra["pristine_single_call_processes"] = json!(pristine_checked);
 
     // evidence
